@@ -30,6 +30,7 @@ THEOREMS = [
     _T + "normalize_screen_name_ne_nil",
     _T + "twitterRoute_nonempty",
     _T + "twitter_record_wellformed",
+    _T + "twitter_record_no_newline_slash",
     # --- instagram: totality + validators (component level and whole function), meaning of the validators
     _I + "instagramRoute_good",
     _I + "parse_instagram_url_total",
@@ -44,6 +45,11 @@ THEOREMS = [
     _G + "telegram_record_valid",
     _G + "extract_channel_name_total",
     _G + "convert_telegram_only_documented_error",
+    # "foreign" independently of the model's guard: whole-label membership of the parsed hostname (C18's spec)
+    _G + "is_telegram_url_iff",
+    _G + "foreign_iff",
+    _G + "convert_telegram_error_iff_foreign",
+    _G + "telegram_record_no_newline_slash",
     _G + "is_telegram_message_id_iff",
     _G + "telegram_record_wellformed",
     # --- shared lemmas the statements rest on
@@ -51,6 +57,9 @@ THEOREMS = [
     "Ural.C19Small.searchB_plus_iff",
     "Ural.C19Small.safe_urlsplit_fragment_count",
     "Ural.C19Small.pathsplit_ends",
+    "Ural.C19Small.hostMatches_site_iff",
+    "Ural.C19Small.get_hostname_no_nl",
+    "Ural.C19Small.pathsplit_segs",
 ]
 TABLE_OBLIGATIONS = [
     _S + "no_record_has_url",
@@ -61,6 +70,8 @@ TABLE_OBLIGATIONS = [
     _I + "shortcode_class",
     _I + "username_class",
     _G + "message_id_class_ascii",
+    _G + "telegram_domains_table_ok",
+    _G + "telegram_family",
 ]
 RULE = (
     "A case is one string given to the functions of one platform (tw: is_twitter_url, parse_twitter_url, "
@@ -115,8 +126,16 @@ ASSUMPTIONS = [
 ]
 UNPROVED = (
     "Nothing of the clauses that apply: totality (incl. termination of the twitter hashbang loop), validators, convert_* and well-formed "
-    "records are proved for every string. Round trip: no record type of these modules builds a url, the clause has no object here. The host "
-    "patterns (which hosts are twitter/instagram/telegram) are not the subject of a theorem in this part (C18), only of the correspondence."
+    "records are proved for every string. 'Raises only its documented error for foreign urls': convert_telegram_only_documented_error states it "
+    "with Foreign = the model's own guard (a definition unfolded); the independent statement is convert_telegram_error_iff_foreign: TypeError exactly "
+    "when urlsplit refuses the url or the netloc, read as a url (which is what is_telegram_url(splitted.netloc) does), has no hostname at or under "
+    "telegram.org / telegram.me / t.me by whole labels (is_telegram_url_iff, from C18's membership theorem through the obligation "
+    "telegram_domains_table_ok). NOT proved: that a url convert_telegram_url_to_public returns is itself a telegram url (true on 23,760 fuzzed urls of "
+    "the real code; needs a urlunsplit/urlsplit round trip of the models). The regex validators built on ^...$ admit one trailing newline (PlusWord); "
+    "twitter_record_no_newline_slash / telegram_record_no_newline_slash prove that no returned field holds a newline or a '/' (fields are pathsplit "
+    "segments of a string urlsplit cleaned); the same is not stated for instagram (its validators' classes exclude '/', the newline case is covered "
+    "by the correspondence only). Round trip: no record type of these modules builds a url, the clause has no object here. Which hosts are "
+    "twitter / instagram are not the subject of a theorem in this part (C18), only of the correspondence."
 )
 
 # hashbang nesting of the input of the fixed RecursionError (FX-C19-4182eae): more than CPython's default stack allows
